@@ -395,7 +395,25 @@ def class_table(repo, ptypes):
             if isinstance(n, ast.Call) and ast.unparse(n.func) in ('lentil.Wavefront', 'Wavefront'):
                 for k in n.keywords:
                     if k.arg and k.arg not in wf_kwargs: missing.append(f'Wavefront(…{k.arg}=)')
-        return ('custom', sorted(set(missing)))
+        # a structural rule for what a custom body does to the plane type: it keeps the argument's type when the object it
+        # returns is the argument, a copy of it, or a Wavefront constructed with (p|plane)type=<argument>.(p|plane)type
+        keeps = False
+        rets = [n.value for n in ast.walk(m) if isinstance(n, ast.Return) and n.value is not None]
+        srcs = {}
+        for n in ast.walk(m):
+            if isinstance(n, ast.Assign) and len(n.targets) == 1 and isinstance(n.targets[0], ast.Name): srcs.setdefault(n.targets[0].id, n.value)
+        def keeps_type(e, depth=0):
+            if isinstance(e, ast.Name):
+                if e.id == param: return True
+                return depth < 3 and e.id in srcs and keeps_type(srcs[e.id], depth + 1)
+            if isinstance(e, ast.Call):
+                f = ast.unparse(e.func)
+                if f in (f'{param}.copy', 'copy.copy', 'copy.deepcopy') : return True
+                if f in ('lentil.Wavefront', 'Wavefront', 'lentil.Wavefront.empty', 'Wavefront.empty'):
+                    return any(k.arg in ('ptype', 'planetype') and ast.unparse(k.value) in (f'{param}.ptype', f'{param}.planetype') for k in e.keywords)
+            return False
+        keeps = bool(rets) and all(keeps_type(r) for r in rets)
+        return ('custom', sorted(set(missing)), keeps)
 
     MUTATORS = ('append', 'extend', 'insert', 'pop', 'remove', 'clear', 'update', 'sort', 'reverse', 'fill', 'setdefault')
 
@@ -573,6 +591,8 @@ def generate(repo):
         f'  | .{c} => ' + (f'some .{k[1]}' if k[0] == 'table' and k[1] else 'none') for c, _, k, _ in classes))
     A('\n/-- the class replaces `Plane.multiply` by a body that does not go through the ptype table -/')
     A('def classCustomMul : PlaneClass → Bool\n' + '\n'.join(f'  | .{c} => {"true" if k[0] == "custom" else "false"}' for c, _, k, _ in classes))
+    A('\n/-- a custom `multiply` hands back its argument, a copy of it, or a Wavefront built with the argument\'s plane type: the type is kept, the ptype table is not consulted -/')
+    A('def classCustomKeepsType : PlaneClass → Bool\n' + '\n'.join(f'  | .{c} => {"true" if (k[0] == "custom" and k[2]) else "false"}' for c, _, k, _ in classes))
     A('\n/-- names referenced by a custom `multiply` that exist nowhere in lentil (=> AttributeError/TypeError when called) -/')
     A('def classMissing : PlaneClass → List String\n' + '\n'.join(
         f'  | .{c} => [' + ', '.join(f'"{m}"' for m in (k[1] if k[0] == 'custom' else [])) + ']' for c, _, k, _ in classes))
